@@ -86,4 +86,63 @@ theorem runBinds_vals_prefix (cfg : Cfg) (a : Nat) (post : List (Name × Binding
     rw [ih]
     rfl
 
+/-! ### expressions without calls leave the state alone (the declaration-only fragment) -/
+
+def Expr.isAtomE : Expr → Bool
+  | .null | .num _ | .bool _ | .ident _ | .qstr _ | .var _ => true
+  | _ => false
+
+/-- literals, variable reads, and one arithmetic / comparison step over them -/
+def Expr.simple : Expr → Bool
+  | .add a b | .lt a b | .eq a b => a.isAtomE && b.isAtomE
+  | e => e.isAtomE
+
+theorem readVar_state {cfg : Cfg} {s : Nat} {x : Name} {st st' : St} {v : V}
+    (h : readVar cfg s x st = .ok (v, st')) : st' = st := by
+  unfold readVar at h
+  split at h
+  · simp at h
+  · split at h
+    · simp at h; exact h.2.symm
+    · simp at h
+
+theorem evalExpr_atom_state {cfg : Cfg} {s : Nat} {e : Expr} (he : e.isAtomE = true) :
+    ∀ {fuel : Nat} {st st' : St} {v : V}, evalExpr fuel cfg s e st = .ok (v, st') → st' = st := by
+  intro fuel st st' v h
+  cases fuel with
+  | zero => simp [evalExpr] at h
+  | succ f =>
+    cases e <;> simp [Expr.isAtomE] at he <;> simp only [evalExpr] at h
+    all_goals first
+      | (simp at h; exact h.2.symm)
+      | exact readVar_state h
+
+theorem evalExpr_simple_state {cfg : Cfg} {s : Nat} {e : Expr} (he : e.simple = true) :
+    ∀ {fuel : Nat} {st st' : St} {v : V}, evalExpr fuel cfg s e st = .ok (v, st') → st' = st := by
+  intro fuel st st' v h
+  cases fuel with
+  | zero => simp [evalExpr] at h
+  | succ f =>
+    cases e with
+    | add a b | lt a b | eq a b =>
+      simp only [Expr.simple, Bool.and_eq_true] at he
+      simp only [evalExpr] at h
+      cases ha : evalExpr f cfg s a st with
+      | error e' => simp [ha] at h
+      | ok ra =>
+        obtain ⟨va, st1⟩ := ra
+        have h1 := evalExpr_atom_state he.1 ha
+        subst h1
+        simp only [ha] at h
+        cases hb : evalExpr f cfg s b st1 with
+        | error e' => simp [hb] at h
+        | ok rb =>
+          obtain ⟨vb, st2⟩ := rb
+          have h2 := evalExpr_atom_state he.2 hb
+          subst h2
+          simp only [hb] at h
+          split at h <;> simp at h <;> first | exact h.2.symm | skip
+    | null | num _ | bool _ | ident _ | qstr _ | var _ => exact evalExpr_atom_state (by rfl) h
+    | list _ _ | map _ | call _ _ | inspect _ | keywords _ | blist _ _ => simp [Expr.simple, Expr.isAtomE] at he
+
 end Core
